@@ -85,7 +85,7 @@ pub fn run_program(
     let (expect, sinks_expected) = eval_program(&p);
     let traces = TraceSink::new();
     let for_each: Arc<Mutex<HashMap<Var, Vec<Rec>>>> = Default::default();
-    let cx = BuildCtx { traces: traces.clone(), for_each: for_each.clone(), probes: true };
+    let cx = BuildCtx { traces: traces.clone(), for_each: for_each.clone(), probes: true, fault: None, handles: None };
     let res: JobResult<Vec<SinkResult>> = run_job(
         layout,
         RunOpts { policy, log_links, ..Default::default() },
